@@ -480,9 +480,11 @@ def gen_len(r, allow_big=True):
     return r.randint(0, 300)
 
 
-def gen_extra_opts(r):
+def gen_extra_opts(r, client=False):
     """Extra request options that any CoAP server passes through to the resource."""
     out = []
+    if client and r.chance(0.04):
+        out.append([rc.NO_RESPONSE, r.choice(["", "02"])])  # RFC 7967, set by the application on its request
     if r.chance(0.25):
         out.append([rc.IF_MATCH, r.randbytes(r.randint(0, 8)).hex()])
     if r.chance(0.2):
@@ -623,7 +625,7 @@ def gen_bc(r, tier):
     for i in range(nreq):
         reqs.append({"tag": i, "t": 0.0 if i == 0 else round(r.choice([0.05, 0.05, 0.1, r.uniform(0.05, 0.4)]), 4),
                      "code": r.choice([1, 2, 3, 4, 5]), "len": gen_len(r, allow_big=(i < 2)), "seed": r.randint(0, 200),
-                     "opts": gen_extra_opts(r)})
+                     "opts": gen_extra_opts(r, client=True)})
     steps = []
     csm_mode = r.weighted([(75, "first"), (10, "missing"), (15, "late")])
     first = []
@@ -711,7 +713,7 @@ def gen_a(r, tier):
         else:
             t = round(r.uniform(0.02, 0.6), 4)
         op = {"tag": i, "client": c, "t": t, "code": r.choice([1, 1, 2, 2, 3, 4, 5, 6, 7]), "len": gen_len(r, bigs < 3),
-              "r": gen_len(r, bigs < 3), "o": r.choice([0, 0, 1, 2]), "seed": r.randint(0, 200), "opts": gen_extra_opts(r)}
+              "r": gen_len(r, bigs < 3), "o": r.choice([0, 0, 1, 2]), "seed": r.randint(0, 200), "opts": gen_extra_opts(r, client=True)}
         if op["len"] > 60000 or op["r"] > 60000:
             bigs += 1
         if r.chance(0.25):
@@ -888,6 +890,9 @@ def corpus():
     ]
     reqs, steps, n = sample_bc()
     out.append({"w": "Bc", "reqs": reqs, "ops": steps, "chunk": bytesw})
+    # the application's No-Response option (RFC 7967) has to go out with the request
+    out.append({"w": "A", "nclients": 1, "ops": [{"tag": 0, "client": 0, "t": 0.0, "code": 2, "len": 30, "r": 5, "o": 0, "seed": 1, "opts": [[258, "02"]]}],
+                "chunk": whole})
     out.append({"w": "Bc", "reqs": reqs, "ops": [{"after": 0, "frames": [dict(CSM_PLAIN)]}, {"after": 2, "frames": [{"k": "abort"}]}], "chunk": whole})
     out.append({"w": "Bc", "reqs": reqs[:1], "ops": [{"after": 1, "frames": [{"k": "resp", "req": 0, "len": 5}]}], "chunk": whole})
     return out
@@ -1304,6 +1309,17 @@ def bc_request_msg(q):
     return {"code": q["code"], "token": b"", "options": opts, "payload": payload}
 
 
+def sent_differs(written, given):
+    """(kind, detail) for a message on the wire that is not the message the application handed over."""
+    wn = [n for n, _ in written["options"]]
+    dropped = sorted({n for n, _ in given["options"] if n not in wn})
+    if dropped:
+        rest = dict(given, options=[(n, v) for n, v in given["options"] if n not in dropped])
+        if msg_key(written, False) == msg_key(rest, False):
+            return ("C15/option-dropped-on-send", {"option_numbers": dropped, "written": brief(written), "given": brief(given)})
+    return ("C15/sent-message-differs", {"written": brief(written), "given": brief(given)})
+
+
 def tag_of(m):
     t = parse_query(m["options"]).get("t")
     try:
@@ -1405,7 +1421,7 @@ def run_bc(sim, scn, chunk, wid, nworld):
                 seen_tags.add(tag)
                 want = bc_request_msg(reqs[tag])
                 if msg_key(m, False) != msg_key(want, False):
-                    v.append(("C15/sent-message-differs", {"written": brief(m), "given": brief(want)}))
+                    v.append(sent_differs(m, want))
             elif not (m["code"] >> 5 in (2, 4, 5) and m["token"] in stray):
                 v.append(("C15/unexpected-output", {"written": brief(m)}))
         answered.clear()
@@ -1537,6 +1553,7 @@ def run_a(sim, scn, chunk, wid, nworld):
     sim.run()
     clean = fault is None
     viol = lambda kind, detail: sim.violation(kind, dict(detail, world=wid, workload="A"))
+    wire_req = {}  # requests that went out differently from what the application gave (reported once, there)
     handler_by_tag = {}
     for h in handler_log:
         handler_by_tag.setdefault(tag_of(h["m"]), []).append(h["m"])
@@ -1572,7 +1589,9 @@ def run_a(sim, scn, chunk, wid, nworld):
             tok2tag[m["token"]] = tag
             want = a_request_msg(ops[tag])
             if msg_key(m, False) != msg_key(want, False):
-                viol("C15/sent-message-differs", {"tag": tag, "written": brief(m), "given": brief(want)})
+                kind, detail = sent_differs(m, want)
+                viol(kind, dict(detail, tag=tag))
+                wire_req[tag] = m
         for (a, b, m, e, raw0) in frames["s2c"]:
             if m is None or m["code"] in (rc.CSM, rc.RELEASE, rc.PONG):
                 continue
@@ -1597,7 +1616,7 @@ def run_a(sim, scn, chunk, wid, nworld):
                     viol(kind, dict(detail, conn=conn.name, receiver=who))
     # application level
     for tag, op in ops.items():
-        want_req = strip_path(a_request_msg(op))
+        want_req = strip_path(wire_req.get(tag) or a_request_msg(op))
         seen = handler_by_tag.get(tag, [])
         rec = outcomes.get(tag)
         if len(seen) > 1:
